@@ -482,6 +482,20 @@ EXTRA5 = {
  "C15": dict(
   technique="; the connection string as a shape (9 leading-word classes x 0 / 1 / 2+ separators x place of the surplus separator x the driver's view of the DSN; 162 shapes, exhaustive x backend x 4 bases, every concrete spelling validated); 'usable' is decided by the repository's own storage constructors up to dialling (klog.OsExit and the MySQL dial hook intercepted) and cross-checked against the specification's StorageOpens; the validated configuration must carry backend and string verbatim",
   note=" Instances for the external backend are not built; 'usable' stops at the point of dialling."),
+ "C01": dict(
+  technique="; the extended-key-usage LIST of the signing certificate as written (CT alone / before / after anyExtendedKeyUsage / beside specific purposes; real issuers with anyExtendedKeyUsage or a specific purpose only): law EkuMembershipDecides, pre-issuer-ness read off the DER by the harness"),
+ "C08": dict(
+  technique="; x configuration: InstanceOptions.ErrorMapper none / all-declining / partial / total (DeclinedFallsBack, named clause MapperOverrides, assumption MapperNeverSuccess) incl. an error without gRPC status; get-proof-by-hash replies of 1-3 proofs x index order x subset malformed x node position / size (ProofNeverMalformed; named unasserted clause ServedProofUnasserted)",
+  note=" Matrix 5285 cases; mapper and proof-list dimensions in direct issuance-chain mode only."),
+ "C10": dict(
+  technique="; 84 string forms per string tag (BMP surrogates, UTF-8 overlong / surrogate / truncated, repertoire neighbours) with verdict and value computed by TLA+ UTF-8 / UTF-16 / repertoire operators; EXPLICIT x target type (RawValue / Flag / bytes / struct / bool) x empty / primitive wrapper x position (followed / last / top level)",
+  note=" Named clauses BMPAsUTF16, BMPTerminator, PrintableAsteriskAmpersand, T61IsOpaque, T61Unassigned, ExplicitOpaque, ExplicitPresence, ExplicitNoChild; quick 53.5k cases, thorough 143k + 223k."),
+ "C13": dict(
+  technique="; retained-results layer of Retry.tla (process history: sent, retained; ResultsAreValues as an action property; RetainedOwn, OneResultPerCall, IdsDistinct): every returned result (error with status and body, *http.Response, body slice, parsed struct, SCT) is kept as handed out and re-rendered after every later return over histories of 6-8 consecutive clients; Return{id} / Inspect{seen} events judged by RetryTrace.tla",
+  note=" Bodies of distinct exchanges differ in text and length across the history; clients of one history are consecutive; the context's error carries no response."),
+ "C19": dict(
+  technique="; set-up as an action (WitnessSetup.tla): every log configuration of up to 4 (thorough 5) entries over 3 keys (any order, any repetition) x set-up path (witness.New / the built witness binary via impl.Main, buildLogMap) x witness key kind (P-256, P-384, RSA-2048, Ed25519, X25519) x restarts on another configuration; behaviours replayed into real processes over loopback HTTP with kill / restart on the same sqlite file, per-reply std-crypto monitor",
+  note=" Named clauses MuteWitnessStoresNothing, DroppedLogNotServed; what a duplicate entry does to the START of the witness is unasserted."),
 }
 for _pid, _e in EXTRA5.items():
     EXTRA4.setdefault(_pid, {})
